@@ -42,13 +42,15 @@ def build_request(kind, idx, rng):
         return ("GET %s HTTP/1.1\r\nHost: h\r\nX-I: %d\r\n\r\n" % (path, idx)).encode(), b"", False
     if kind == "plain-body":
         return ("POST %s HTTP/1.1\r\nHost: h\r\nContent-Length: %d\r\nX-I: %d\r\n\r\n" % (path, len(body), idx)).encode(), body, False
+    # the expectation is case-insensitive (RFC 9110 10.1.1), and so is the field name
+    exp = "%s: %s" % (rng.choice(["Expect", "Expect", "expect", "EXPECT"]), rng.choice(["100-continue", "100-continue", "100-Continue", "100-CONTINUE"]))
     if kind == "exp-cl":
-        return ("POST %s HTTP/1.1\r\nHost: h\r\nContent-Length: %d\r\nExpect: 100-continue\r\nX-I: %d\r\n\r\n" % (path, len(body), idx)).encode(), body, True
+        return ("POST %s HTTP/1.1\r\nHost: h\r\nContent-Length: %d\r\n%s\r\nX-I: %d\r\n\r\n" % (path, len(body), exp, idx)).encode(), body, True
     if kind == "exp-cl0":
         return ("POST %s HTTP/1.1\r\nHost: h\r\nContent-Length: 0\r\nExpect: 100-Continue\r\nX-I: %d\r\n\r\n" % (path, idx)).encode(), b"", False
     if kind == "exp-chunked":
         enc = b"%x\r\n" % len(body) + body + b"\r\n0\r\n\r\n"
-        return ("POST %s HTTP/1.1\r\nHost: h\r\nTransfer-Encoding: chunked\r\nExpect: 100-continue\r\nX-I: %d\r\n\r\n" % (path, idx)).encode(), enc, True
+        return ("POST %s HTTP/1.1\r\nHost: h\r\nTransfer-Encoding: chunked\r\n%s\r\nX-I: %d\r\n\r\n" % (path, exp, idx)).encode(), enc, True
     if kind == "exp-nobody":
         return ("GET %s HTTP/1.1\r\nHost: h\r\nExpect: 100-continue\r\nX-I: %d\r\n\r\n" % (path, idx)).encode(), b"", False
     if kind == "exp-refused":
